@@ -7,6 +7,11 @@ POOL_KINDS = ["pool<%s>/%s" % (t, s) for t in POOL_TYPES for s in SOURCES]
 
 COLL_KINDS = ["coll<%s,%s>/%s" % (t, b, s) for b in ("identity", "log2") for t in POOL_TYPES for s in SOURCES]
 
+STACK_KINDS = ["stack/%s" % s for s in SOURCES]
+ITER_KINDS = ["iter<%d>/%s" % (n, s) for n in range(1, 6) for s in ("grow", "blk", "static", "virtual")]
+LOW_KINDS = ["heap_allocator", "malloc_allocator", "new_allocator", "virtual_memory_allocator", "aligned<heap>"]
+TEMP_KINDS = ["temporary/explicit-stack", "temporary/thread-stack"]
+
 ASSUME_COMMON = [
     "the instrumented upstream allocators (probes) and the shadow heap are correct",
     "histories are contract-respecting as listed in DESIGN.md section 5",
@@ -36,6 +41,69 @@ def coll_jobs(cfgs, groups, ncases, ops, chunk, flavour="asan", kinds=COLL_KINDS
     return hist_jobs("h_coll", kinds, cfgs, groups, ncases, ops, chunk, flavour)
 
 
+def stack_jobs(cfgs, groups, ncases, ops, chunk, flavour="asan", kinds=STACK_KINDS):
+    return hist_jobs("h_stack", kinds, cfgs, groups, ncases, ops, chunk, flavour)
+
+
+def low_jobs(cfgs, ncases, ops, chunk, flavour="asan", kinds=LOW_KINDS + TEMP_KINDS):
+    # temporary/thread-stack: the thread's stack persists for the life of the process, keep processes short
+    jobs = []
+    for k in kinds:
+        ck = min(chunk, 25) if k == "temporary/thread-stack" else chunk
+        jobs += hist_jobs("h_low", [k], cfgs, ["walk"], ncases, ops, ck, flavour)
+    return jobs
+
+
+RULE_HISTORY = ("case = (harness, configuration, allocator kind x block source, generator mode, index); every case is a seeded history of "
+                "%s; distinct = FNV-1a over kind, configuration and the complete operation sequence; non-trivial = %s")
+
+Q_CFGS = ["rwd", "dbg"]
+T_CFGS = ["rel", "rwd", "dbg", "dbg16", "chk"]
+
+
+def _scale(tier, q, t):
+    return q if tier == "quick" else t
+
+
+def plan_c01(tier, seed):
+    q = tier == "quick"
+    cfgs = ["rel", "rwd", "dbg"] if q else T_CFGS
+    n = _scale(tier, 60, 1200)
+    ops = _scale(tier, 250, 400)
+    ck = _scale(tier, 60, 150)
+    jobs = pool_jobs(cfgs, ["walk", "phased", "corner"], n, ops, ck) + coll_jobs(cfgs, ["walk", "phased", "corner"], n // 2, ops, ck) \
+        + stack_jobs(cfgs, ["walk", "phased"], n, ops, ck, kinds=STACK_KINDS + ITER_KINDS + ["static_allocator"]) \
+        + low_jobs(cfgs, n, ops, ck)
+    if not q:
+        jobs += pool_jobs(["rwd"], ["walk", "corner"], 300, ops, 100, flavour="casan") \
+            + stack_jobs(["rwd"], ["walk"], 300, ops, 100, flavour="casan", kinds=STACK_KINDS + ITER_KINDS)
+    return dict(jobs=jobs, level="exploration",
+                rule=RULE_HISTORY % ("node/array allocations, releases in random order, try_ calls, unwinds, iteration switches, moves and swaps",
+                                     "at least two allocations were live at the same time and memory was released, unwound or an iteration wrapped around"),
+                assumptions=ASSUME_COMMON + ["an overwrite of live memory that is undone before the next read-back of the pattern is not seen"],
+                minima={"cases": 500, "distinct_nontrivial": 300, "alloc_node": 10000, "sweeps": 1000, "unwinds": 100, "next_iteration": 500})
+
+
+def plan_c02(tier, seed):
+    q = tier == "quick"
+    cfgs = ["rwd", "dbg", "dbg16"] if q else T_CFGS
+    n = _scale(tier, 50, 1000)
+    ops = _scale(tier, 250, 400)
+    ck = _scale(tier, 50, 150)
+    jobs = pool_jobs(cfgs, ["walk", "phased"], n, ops, ck) + coll_jobs(cfgs, ["walk", "phased"], n // 2, ops, ck) \
+        + stack_jobs(cfgs, ["walk", "phased"], n, ops, ck, kinds=STACK_KINDS + ITER_KINDS + ["static_allocator"]) \
+        + low_jobs(cfgs, n, ops, ck)
+    if not q:
+        jobs += stack_jobs(["rwd", "dbg"], ["walk"], 300, ops, 100, flavour="casan", kinds=STACK_KINDS + ITER_KINDS) \
+            + low_jobs(["rwd", "dbg"], 200, ops, 100, flavour="casan", kinds=LOW_KINDS)
+    return dict(jobs=jobs, level="exploration",
+                rule=RULE_HISTORY % ("requests with seeded sizes, counts and power-of-two alignments (up to 512 on stacks, iteration, static and "
+                                     "temporary allocators, page size on virtual memory) from upstream blocks that are aligned exactly as requested and "
+                                     "not more",
+                                     "several allocations live at once and the history contains an over-aligned request, a block growth or a release"),
+                assumptions=ASSUME_COMMON, minima={"cases": 500, "distinct_nontrivial": 300, "alloc_node": 10000, "alloc": 10000, "grow": 200})
+
+
 def plan_c04(tier, seed):
     q = tier == "quick"
     cfgs = ["rwd", "dbg"] if q else ["rel", "rwd", "dbg", "dbg16", "chk"]
@@ -50,6 +118,95 @@ def plan_c04(tier, seed):
                 assumptions=ASSUME_COMMON, minima={"cases": 100, "distinct_nontrivial": 50, "release_array": 100, "cycles": 20, "drains": 20})
 
 
+def plan_c05(tier, seed):
+    q = tier == "quick"
+    cfgs = Q_CFGS if q else T_CFGS
+    n = _scale(tier, 60, 1000)
+    ops = _scale(tier, 250, 400)
+    ck = _scale(tier, 60, 150)
+    jobs = pool_jobs(cfgs, ["walk", "phased"], n, ops, ck) + coll_jobs(cfgs, ["walk", "phased"], n // 2, ops, ck) \
+        + stack_jobs(cfgs, ["walk", "phased"], n * 2, ops, ck, kinds=STACK_KINDS) \
+        + stack_jobs(cfgs, ["walk"], n, ops, ck, kinds=ITER_KINDS) \
+        + low_jobs(cfgs, n, ops, ck, kinds=["heap_allocator", "malloc_allocator", "aligned<heap>", "temporary/explicit-stack"])
+    return dict(jobs=jobs, level="exploration",
+                rule=RULE_HISTORY % ("allocations, releases, unwinds, shrink_to_fit, moves, move assignments, swaps and destruction at seeded points over "
+                                     "instrumented block sources that check every release (known block, once, same address/size/alignment, LIFO)",
+                                     "the history made the arena acquire more than one block, reuse a cached block, or moved the allocator"),
+                assumptions=ASSUME_COMMON + ["upstream failure at every k is decided by the C03 check (h_fail), which applies the same probe oracle"],
+                minima={"cases": 500, "distinct_nontrivial": 200, "upstream_acquire": 2000, "upstream_release": 2000, "cache_reuse": 100,
+                        "shrinks": 100, "destructions": 500})
+
+
+def plan_c06(tier, seed):
+    q = tier == "quick"
+    cfgs = ["rwd", "dbg", "dbg16"] if q else T_CFGS
+    n = _scale(tier, 150, 4000)
+    ops = _scale(tier, 300, 500)
+    ck = _scale(tier, 75, 200)
+    jobs = stack_jobs(cfgs, ["walk", "phased"], n, ops, ck, kinds=STACK_KINDS) \
+        + low_jobs(cfgs, n // 2, ops, ck, kinds=TEMP_KINDS)
+    return dict(jobs=jobs, level="exploration",
+                rule=RULE_HISTORY % ("allocate / try_allocate / top / unwind to a seeded still-valid marker / shrink_to_fit / move / swap on memory_stack, "
+                                     "and nested temporary_allocator scopes",
+                                     "the history unwound to a marker and either replayed the requests that followed the marker (address equality) or "
+                                     "unwound across a block boundary"),
+                assumptions=ASSUME_COMMON + ["replay equality is judged only while no shrink_to_fit happened since the marker was taken"],
+                minima={"cases": 300, "distinct_nontrivial": 200, "unwinds": 2000, "replayed_requests": 2000, "marker_comparisons": 5000})
+
+
+def plan_c07(tier, seed):
+    q = tier == "quick"
+    cfgs = ["rel", "rwd", "dbg"] if q else T_CFGS
+    n = _scale(tier, 100, 3000)
+    ops = _scale(tier, 300, 500)
+    ck = _scale(tier, 100, 250)
+    jobs = stack_jobs(cfgs, ["walk"], n, ops, ck, kinds=ITER_KINDS)
+    return dict(jobs=jobs, level="exploration",
+                rule=RULE_HISTORY % ("allocate / try_allocate / next_iteration / move on iteration_allocator<1..5> with block sizes N*k, N*k+r, primes, "
+                                     "1025 and random, fill on and off",
+                                     "next_iteration() wrapped around at least once (an old region was reused) while several allocations were live"),
+                assumptions=ASSUME_COMMON, minima={"cases": 300, "distinct_nontrivial": 200, "next_iteration": 5000, "alloc": 5000})
+
+
+def plan_c12(tier, seed):
+    q = tier == "quick"
+    cfgs = Q_CFGS if q else T_CFGS
+    n = _scale(tier, 60, 1000)
+    ops = _scale(tier, 250, 400)
+    ck = _scale(tier, 60, 150)
+    jobs = pool_jobs(cfgs, ["walk", "phased", "corner"], n, ops, ck) + coll_jobs(cfgs, ["walk", "phased"], n // 2, ops, ck) \
+        + stack_jobs(cfgs, ["walk", "phased"], n, ops, ck, kinds=STACK_KINDS + ITER_KINDS)
+    return dict(jobs=jobs, level="exploration",
+                rule=RULE_HISTORY % ("operations with move construction, move assignment (onto fresh and onto used targets) and swap inserted at seeded "
+                                     "positions; the shadow heap, the upstream log and the leak handler keep judging across the move",
+                                     "the history contains at least one move construction, move assignment or swap"),
+                assumptions=ASSUME_COMMON, minima={"cases": 500, "distinct_nontrivial": 300, "move_construct": 500, "move_assign": 500, "swap": 100})
+
+
+def plan_c15(tier, seed):
+    q = tier == "quick"
+    cfgs = ["rwd", "dbg"] if q else ["rel", "rwd", "dbg", "chk"]
+    n = _scale(tier, 60, 1000)
+    ops = _scale(tier, 200, 400)
+    ck = _scale(tier, 60, 150)
+    jobs = pool_jobs(cfgs, ["walk", "phased"], n, ops, ck) + coll_jobs(cfgs, ["walk", "phased"], n // 2, ops, ck) \
+        + stack_jobs(cfgs, ["walk"], n, ops, ck, kinds=STACK_KINDS)
+    return dict(jobs=jobs, level="exploration",
+                rule=RULE_HISTORY % ("allocator_traits-level node and array allocations and releases (array element sizes different from node sizes), moves "
+                                     "at seeded points, destruction with and without outstanding allocations; a recording leak handler is compared with "
+                                     "the model's net byte count at every destruction",
+                                     "memory was released and the allocator was destroyed with a non-zero net count or was moved"),
+                assumptions=ASSUME_COMMON + ["the stateless allocators' exit-time report is decided by child processes (h_exit), see DESIGN.md C15"],
+                minima={"cases": 300, "distinct_nontrivial": 200, "leak_reports_checked": 300, "silent_destructions_checked": 300})
+
+
 PLANS = {
+    "C01": plan_c01,
+    "C02": plan_c02,
     "C04": plan_c04,
+    "C05": plan_c05,
+    "C06": plan_c06,
+    "C07": plan_c07,
+    "C12": plan_c12,
+    "C15": plan_c15,
 }
